@@ -225,9 +225,8 @@ def binary_gterm(I, G):
 def check_variant(r, F, G, enum, variant, rule, sents, ln, runs, unknown, bound):
     where = "%s:%d" % (PR, ln)
     key = "%s::%s" % (enum, variant)
-    if unknown:
-        r.inst(key + ":interp", where, False, "printer arm uses constructs the interpreter does not model: %s" % unknown)
-        return
+    # a construct the interpreter does not model is a limit of the interpreter, not a property of the printer: cannot decide
+    need(not unknown, "%s: the printer arm uses constructs the interpreter does not model: %s" % (key, unknown))
     I = gfields.Instance(F, G)
     if rule == "op_expression":
         g = binary_gterm(I, G)
@@ -769,8 +768,12 @@ def r16m(F):
 
 
 def _is_err_path(fn, b):
-    """block from which only Err returns are reachable: approximated by: reaches a BuildError::from call before any return"""
+    """block from which only Err returns are reachable: approximated by: reaches a BuildError::from call before any return;
+    or the early return of `?` (from_residual into the return place, no Ok result reachable)"""
     seen = cfg.reachable(fn, b)
+    oks = util.result_blocks(fn, "Ok")
+    if not (seen & oks) and any(fn.term(x)["k"] == "call" and callee(fn.term(x)).endswith("::from_residual") for x in seen):
+        return True
     for x in seen:
         t = fn.term(x)
         if t["k"] == "call" and "BuildError" in callee(t) and x == b:
@@ -815,9 +818,18 @@ def _cmp_consts(fn, blocks=None):
         if blocks is not None and b not in blocks:
             continue
         t = fn.term(b)
-        if t["k"] == "switch" and not t.get("enum") and fn.local_ty(op_local_(t["on"]) or 0) in ("char", "u8"):
+        if t["k"] == "switch" and not t.get("enum") and (t.get("ty") in ("char", "u8") or fn.local_ty(op_local_(t["on"]) or 0) in ("char", "u8")):
             for x in t["targets"]:
                 out.setdefault(int(x["val"]), []).append(b)
+    return out
+
+
+def _cmp_consts_with_closures(F, fn):
+    """... including the closures of fn (the per-character test of an iterator pipeline)"""
+    out = dict(_cmp_consts(fn))
+    for cf in F.closures_of(fn.name):
+        for k, v in _cmp_consts(cf).items():
+            out.setdefault(k, []).extend(v)
     return out
 
 
@@ -828,12 +840,16 @@ def r17(F):
                    "writes from an AST payload goes through escape_quotes", floor=4, exhaustive=True)
     esc = F.fn("ucglib::ast::printer::AstPrinter::escape_quotes")
     unq = F.fn(T + "escapequoted")
-    pc = _cmp_consts(esc)
-    tc = {k: v for k, v in _cmp_consts(unq).items()}
+    pc = _cmp_consts_with_closures(F, esc)
+    tc = {k: v for k, v in _cmp_consts_with_closures(F, unq).items()}
+    need(pc, "escape_quotes: no character is compared (the escaping is written in a way this rule does not read)")
+    need(tc, "escapequoted: no byte is compared (the un-escaping is written in a way this rule does not read)")
     # in escapequoted the bytes compared outside the `if escape` block: those guarded by `!escape`
     special = {k for k in tc if k in (92, 34) or chr(k) not in "nrt"}
     named = {k for k in tc if chr(k) in "nrt"}
-    strs = util.str_consts(esc)
+    strs = list(util.str_consts(esc))
+    for cf in F.closures_of(esc.name):
+        strs += list(util.str_consts(cf))
     for c in sorted(set(pc) | special):
         ok = c in pc and c in special
         seq_ok = ("\\" + chr(c)) in strs
@@ -892,8 +908,11 @@ def r17b(F):
            % (sorted(chr(k) for k in extra) or sorted(preds)))
     # remaining characters within is_symbol_char
     sym = F.fn(T + "is_symbol_char")
-    sym_preds = {callee(t).split("::")[-1] for b, t in sym.calls() if "char::methods" in callee(t)}
+    # the class tests of char and of u8 (`c.is_ascii_alphanumeric()` on the byte or on the character) are the same classes
+    is_class = lambda c: c.split("::")[-1].startswith("is_ascii_") and ("char::methods" in c or "<impl u8>" in c or "<impl char>" in c)
+    sym_preds = {callee(t).split("::")[-1] for b, t in sym.calls() if is_class(callee(t))}
     sym_chars = set(_cmp_consts(sym))
+    need(sym_preds or sym_chars, "is_symbol_char: no character class or constant is tested (written in a way this rule does not read)")
     rest_region = set()
     for b in later:
         rest_region |= cfg.reachable(fn, b)
